@@ -1832,6 +1832,10 @@ JOINER_BODIES = {
     'async_lazy': 'w::jst({ev}, {fut}::join!($(($x)()),*))',
     'async_try': '{fut}::try_join!($($x),*).map(|t| w::jst({ev}, t))',
     'async_transpose': 'w::jst({ev}, {fut}::join!($($x),*))',
+    # joiners that do not look at what they join (any output type of the branch futures is accepted): what they are handed is
+    # then only constrained by what the expansion does with the joiner's output
+    'async_opaque': '{fut}::join!($($x),*)',
+    'async_try_opaque': '{fut}::try_join!($($x),*)',
 }
 
 
@@ -1845,8 +1849,8 @@ OPT_VARIANTS = {
     # family -> [(variant, kinds or None)]
     ('sync', False): [('eager', ['join']), ('lazy', ['join']), ('handles', ['join_spawn', 'spawn']), ('noop', None)],
     ('sync', True): [('eager', ['try_join']), ('lazy', ['try_join']), ('try_notranspose', ['try_join']), ('handles', ['try_join_spawn', 'try_spawn']), ('noop', None)],
-    ('async', False): [('async', None), ('async_lazy', ['join_async']), ('fcp', None)],
-    ('async', True): [('async_try', None), ('async_transpose', None), ('fcp', None)],
+    ('async', False): [('async', None), ('async_lazy', ['join_async']), ('fcp', None), ('async_opaque', None)],
+    ('async', True): [('async_try', None), ('async_transpose', None), ('fcp', None), ('async_try_opaque', None)],
 }
 
 
